@@ -6,7 +6,7 @@
 (* The definitions are those of Hctl.tla (EXs, AXs), restated here so that *)
 (* the module stands alone for tlapm.                                      *)
 (***************************************************************************)
-EXTENDS TLAPS
+EXTENDS TLAPS, Naturals
 
 EXs(K, S, X) == {s \in S : K[s] \cap X # {}}
 AXs(K, S, X) == {s \in S : K[s] \subseteq X}
@@ -84,6 +84,15 @@ BY DEF EXs
 THEOREM BindInExists ==
   ASSUME NEW S, NEW Phi \in [S -> SUBSET S]
   PROVE  {s \in S : s \in Phi[s]} \subseteq UNION {Phi[v] : v \in S}
+OBVIOUS
+
+(* The save rule of the cache (Cache.SaveRule, restated over the domains of the open scopes): if every open  *)
+(* restricted scope is THE scope of the key's own variable, then the set of restricted domains under which   *)
+(* the value is computed is contained in {that domain} - the step on which Cache.StoredValuesPortable rests. *)
+THEOREM SaveRulePortable ==
+  ASSUME NEW n \in Nat, NEW dom \in [1..n -> STRING], NEW kd \in STRING,
+         \A i \in 1..n : dom[i] # "" => (dom[i] = kd /\ \A j \in 1..n : dom[j] # "" => j = i)
+  PROVE  {dom[j] : j \in {i \in 1..n : dom[i] # ""}} \subseteq {kd}
 OBVIOUS
 
 (* ---- the three README equivalences for quantifiers with a domain (C02), semantically ---- *)
